@@ -267,9 +267,12 @@ func c05GenField(rt *rapid.T, cfg *c05GenCfg, depth int, prefix string, idx int)
 		}
 		f.Anon = true
 		f.Tag = ""
-		if !cfg.conf && rapid.IntRange(0, 9).Draw(rt, "embopt") == 0 {
+		if rapid.IntRange(0, 9).Draw(rt, "embopt") < 3 {
 			f.Tag = cfg.tag
 			f.Opt = true
+			if f.T.C == "" && rapid.IntRange(0, 3).Draw(rt, "embptr") == 0 {
+				f.T.P = true // optional embedded *struct
+			}
 		}
 		return f
 	}
